@@ -857,15 +857,26 @@ def run(res):
             res.violation("text does not denote what was given: %s -> %r ; reader says %s (%d inputs of this class)" % (ops[i], impl[i], m, n),
                           {"ops": rp, "impl": impl[i], "model": model_full[i], "monitor": m,
                            "how": "feed the ops to .build/<tree>/asan/h_c20_* ; vdriver C20 judges `mon_*` lines"}, True, key=key)
-    elif diffs:
-        i = diffs[0]
+    # a correspondence difference is reported unless the SAME op is already explained by a reader violation above
+    # (an implementation change makes the text wrong and different from the model at once); differences on other ops,
+    # or on classes of ops without a reader violation, are never hidden
+    bad_idx = {i for i, _ in bad}
+    bad_classes = {op_class(ops[i], archs, i) for i in bad_idx}
+    unexplained = [i for i in diffs if i not in bad_idx and not (wf[i] is False and op_class(ops[i], archs, i) in bad_classes)]
+    if unexplained:
+        i = unexplained[0]
         rp = [o for o in ops[:i + 1] if o.startswith("init ")][-1:] + state_prefix(ops, i)[1:] + [ops[i]]
-        res.violation("correspondence model/implementation differs at %r: impl=%r model=%r (%d differing ops); the reader accepts every "
-                      "well-formed text explored" % (ops[i], impl[i], model_full[i], len(diffs)),
+        res.violation("correspondence model/implementation differs at %r: impl=%r model=%r (%d differing ops not explained by a reader "
+                      "violation); the reader accepts the well-formed texts of these ops" % (ops[i], impl[i], model_full[i], len(unexplained)),
                       {"ops": rp, "impl": impl[i], "model": model_full[i], "unchecked": "correspondence Model/Format.lean ~ formatter/logger"},
                       False, key="corr")
-    elif broken:
+    if broken:
         res.violation("proof obligation no longer checks: " + " | ".join(broken)[:1500], {"unchecked": broken}, False, key="obligation")
+    # an empty run is never a pass
+    n_query = sum(1 for o in ops if o.split()[0] not in STATE_OPS)
+    if n_query == 0 or judged == 0 or accepted == 0:
+        res.violation("empty run: %d query lines, %d texts judged, %d instructions emitted" % (n_query, judged, accepted),
+                      {"ops": ops[:5]}, False, key="empty")
 
 
 def replay(data):
